@@ -983,3 +983,139 @@ Proof.
   intros Hk Hs Hn Htm Fl NBC. destruct (ts_read_sub_source rf rp fo po k sx m h tmb n sub Hs Hn Htm Fl NBC) as (f0 & F). exists f0. intros f Hf.
   destruct (F f Hf) as (st & fin & C & _ & _ & _ & TST). exists st, fin. split; [exact C|]. rewrite (TST Hk). apply ts_st_model; [exact Hs|lia].
 Qed.
+
+(* ================================================================== sbdf_ts_skip: a read with a subset that selects nothing, then the release of the (empty) table slice *)
+Section TsSkip.
+Variables (bv : val) (o : list Z) (rf : region) (fo : Z) (h : heap) (tmb : nat) (n : Z).
+Notation fv := (VPtr rf fo).
+Notation L := (List.length h).
+Hypothesis Hn : 0 <= n <= 715827882.
+Hypothesis Htm : cell_get h tmb 1 = Some (VInt n).
+
+Definition tsk (e sl sb : val) (k : Z) (s : list Z) (hh : heap) (m : list Z) : state :=
+  fr [("f", fv); ("meta", VCell tmb 0); ("error", e); ("slice", sl); ("subset", sb)]%string bv k s hh m o.
+Definition allskip (m : list Z) : option (Z * list Z) := Some (zlen m, repeat 0 (Z.to_nat n)).
+
+Lemma sel_allskip m i : sel (allskip m) i = false.
+Proof.
+  unfold sel, allskip. replace (nth (Z.to_nat i) (repeat 0 (Z.to_nat n)) 0) with 0; [reflexivity|].
+  generalize (Z.to_nat i). generalize (Z.to_nat n). induction n0 as [|a IH]; intros [|b]; cbn [repeat nth]; try reflexivity. apply IH.
+Qed.
+Lemma nobit_allskip m : forall rem i s, colsf_nobit (allskip m) rem i s.
+Proof. induction rem as [|r IH]; intros i s; cbn [colsf_nobit]; [exact I|]. rewrite sel_allskip. split; [exact I|]. destruct (csk_end s); [apply IH|exact I]. Qed.
+
+Ltac evz := cbn [prog_env eval_args callee_init finish_call copy_in copy_out try_update update lookup combine map app String.append
+                 String.eqb Ascii.eqb Bool.eqb fparams flocals vars inb outb budget_var fail_var strm_var cells_var cell_token List.length Nat.eqb eval set_var cast
+                 truth binop_int b2z negb heap_of as_ptr storable fst snd stream_of set_stream
+                 prog_sbdf_ts_destroy prog_sbdf_ts_read prog_sbdf_ts_skip];
+  change (0 =? 0) with true; change (1 =? 0) with false; cbn [negb b2z].
+
+Lemma ts_skip_bs k sx m : Forall byte sx ->
+  exists st e' sl' sb' k' s' j m',
+    bsE prog_env (fbody prog_sbdf_ts_skip) (tsk VUndef VUndef VUndef k sx h m) (OReturn (VInt st) (tsk e' sl' sb' k' s' (h ++ nones j) m')) /\ prefix_of m m' /\
+    ((st = SBDF_OK /\ exists s1 s2, sec_read sx = Ok (3, s1) /\ read_int32 false s1 = Ok (n, s2) /\ colsf_end (allskip m) (Z.to_nat n) 0 s2 = Some s') \/ st < 0) /\
+    (k < 0 -> st = ts_st n (allskip m) sx).
+Proof.
+  intros Hs. set (z := Z.to_nat n). set (m1 := m ++ repeat 0 z).
+  assert (Fl : flags_in n (allskip m) m1).
+  { unfold flags_in, allskip. exists m, []. split; [unfold m1; rewrite app_nil_r; reflexivity|]. split; [reflexivity|]. split; [unfold zlen; rewrite repeat_length; lia|].
+    apply Forall_forall. intros x Hx. apply repeat_spec in Hx. subst x. unfold byte. lia. }
+  assert (HEAD : forall X oo, bsE prog_env X (tsk VUndef VUndef VUndef k sx h m) oo ->
+     bsE prog_env (SSeq (SDecl "error" None) (SSeq (SDecl "slice" None) (SSeq (SDecl "subset" None) (SSeq (SIf (ELNot (EVar "meta")) (SReturn (EBin Sub (EConst 0) (EConst (1)))) SSkip) X))))%string
+       (tsk VUndef VUndef VUndef k sx h m) oo).
+  { intros X oo B. revert B. unfold tsk, fr. cbn [app]. intros B.
+    eapply bsE_seq; [eapply bsE_decl0; evz; reflexivity|]. eapply bsE_seq; [eapply bsE_decl0; evz; reflexivity|]. eapply bsE_seq; [eapply bsE_decl0; evz; reflexivity|].
+    eapply bsE_seq; [eapply bsE_if; [evz; reflexivity|reflexivity|apply bsE_skip]|]. exact B. }
+  destruct (k =? 0) eqn:Ek0.
+  { (* the flag buffer cannot be allocated *)
+    exists SBDF_ERROR_OUT_OF_MEMORY. do 3 eexists. exists (-1), sx, 0%nat, m. split; [|split; [exists []; now rewrite app_nil_r|split; [right; reflexivity|intros X; lia]]].
+    unfold nones. cbn [repeat]. rewrite app_nil_r. cbn [fbody prog_sbdf_ts_skip]. apply HEAD. unfold tsk, fr. cbn [app].
+    eapply bsE_seq; [eapply bsE_expr; evz; chk7; evz; replace (0 + 1) with 1 by lia; rewrite Htm; evz; replace (0 <=? n) with true by lia; evz; replace (0 <=? n) with true by lia; rewrite Ek0; evz; reflexivity|].
+    eapply bsE_seq_ret. eapply bsE_if; [evz; reflexivity|reflexivity|]. eapply bsE_return. evz. chk7. reflexivity. }
+  set (k1 := dec k).
+  destruct (ts_read_bs bv o rf ROut fo 0 VUndef h tmb n (allskip m) Hn Htm k1 sx m1 Hs Fl (fun s1 s2 _ _ => nobit_allskip m _ _ _))
+    as (st & l' & k' & s' & h' & m' & B & (x & Hm') & FS & Out & TST).
+  assert (Pfm : prefix_of m m') by (exists (repeat 0 z ++ x); rewrite Hm'; unfold m1; rewrite app_assoc; reflexivity).
+  assert (Hzl : 0 <= zlen m <= zlen m') by (pose proof (zlen_nonneg m); rewrite Hm'; unfold m1; rewrite !zlen_app; pose proof (zlen_nonneg x); pose proof (zlen_nonneg (repeat 0 z)); lia).
+  assert (ALLOC : forall X oo, bsE prog_env X (tsk VUndef VUndef (VPtr RIn (zlen m)) k1 sx h m1) oo ->
+     bsE prog_env (SSeq (SExpr (EAssign "subset" (ECallocBytes (ECast TSizeT (ECellLoad (EVar "meta") (EConst 1) false))))) (SSeq (SIf (ELNot (EVar "subset")) (SReturn (EBin Sub (EConst 0) (EConst (2)))) SSkip) X))%string
+       (tsk VUndef VUndef VUndef k sx h m) oo).
+  { intros X oo B0. revert B0. unfold tsk, fr, k1, dec. cbn [app]. destruct (0 <? k) eqn:Ep; intros B0.
+    all: (eapply bsE_seq; [eapply bsE_expr; evz; chk7; evz; replace (0 + 1) with 1 by lia; rewrite Htm; evz; replace (0 <=? n) with true by lia; evz; replace (0 <=? n) with true by lia; rewrite Ek0; evz;
+                     fold z; rewrite ?Ep; evz; rewrite zlen_length; reflexivity|]);
+         (eapply bsE_seq; [eapply bsE_if; [evz; reflexivity|reflexivity|apply bsE_skip]|]); exact B0. }
+  destruct l' as [q1 q2 q3 q4 q5 q6 q7 q8]. cbn [t_so] in Out.
+  assert (CALL : bsE prog_env (SCall (Some "error") "sbdf_ts_read" [(AVal (EVar "f")); (AVal (EVar "meta")); (AVal (EVar "subset")); (AAddr "slice")])%string
+                   (tsk VUndef VUndef (VPtr RIn (zlen m)) k1 sx h m1) (ONormal (tsk (VInt st) q8 (VPtr RIn (zlen m)) k' s' h' m'))).
+  { revert B. unfold trf, trl0, tsk, fr, sv, allskip. cbn [t_cc t_err t_i t_t t_v t_a1 t_c1 t_so app]. intros B.
+    eapply bsE_call; [reflexivity|evz; reflexivity|reflexivity|exact B|evz; reflexivity]. }
+  destruct Out as [(-> & -> & (hs & blocks & -> & Hz & C) & s1 & s2 & E1 & E2 & E3)|(Hneg & -> & j & ->)].
+  - (* the slice was read (every column skipped): it is released again *)
+    pose proof (ts_destroy_read_bs bv o k' s' m' h (VCell tmb 0) n hs [] (zeros (Z.to_nat (array_capacity n - n))) blocks [] VUndef C
+                  ltac:(change (zlen (@nil val)) with 0; lia) ltac:(unfold int_max; lia) (Forall_nil _)) as D.
+    cbn [app] in D. rewrite !app_nil_r in D. unfold fr in D. cbn [app] in D.
+    exists SBDF_OK. do 3 eexists. exists k', s', (2 + List.length blocks)%nat, m'. split; [|split; [exact Pfm|split; [left; split; [reflexivity|exists s1, s2; repeat split; assumption]|intros X; apply TST; unfold k1, dec; replace (0 <? k) with false by lia; exact X]]].
+    cbn [fbody prog_sbdf_ts_skip]. apply HEAD. apply ALLOC.
+    eapply bsE_seq; [eapply bsE_seq; [exact CALL|unfold tsk, fr; cbn [app]; eapply bsE_if; [evz; reflexivity|reflexivity|apply bsE_skip]]|].
+    unfold tsk, fr. cbn [app].
+    eapply bsE_seq; [eapply bsE_call_void; [reflexivity|evz; reflexivity|reflexivity|evz; unfold HT, tsl; exact D|evz; reflexivity]|].
+    eapply bsE_seq; [eapply bsE_expr; evz; rewrite zlen_length; replace ((0 <=? zlen m) && (zlen m <=? zlen m')) with true by lia; reflexivity|].
+    eapply bsE_return. evz. chk7. reflexivity.
+  - (* the table slice could not be skipped *)
+    exists st. do 3 eexists. exists k', s', j, m'. split; [|split; [exact Pfm|split; [right; exact Hneg|intros X; apply TST; unfold k1, dec; replace (0 <? k) with false by lia; exact X]]].
+    cbn [fbody prog_sbdf_ts_skip]. apply HEAD. apply ALLOC.
+    eapply bsE_seq_ret. eapply bsE_seq; [exact CALL|]. unfold tsk, fr. cbn [app].
+    eapply bsE_if; [evz; reflexivity|cbn [truth]; replace (st =? 0) with false by lia; reflexivity|].
+    eapply bsE_seq; [eapply bsE_expr; evz; rewrite zlen_length; replace ((0 <=? zlen m) && (zlen m <=? zlen m')) with true by lia; reflexivity|].
+    eapply bsE_return. evz. reflexivity.
+Qed.
+End TsSkip.
+
+Lemma colsf_end_of_model sub : forall rem i s cs s', 0 <= i -> read_cols false None rem (msub sub i) s = Ok (cs, s') -> colsf_end sub rem i s = Some s'.
+Proof.
+  induction rem as [|r IH]; intros i s cs s' Hi E; cbn [read_cols colsf_end] in *; [unfold rret in E; injection E as _ <-; reflexivity|].
+  assert (SEL : (match msub sub i with None => true | Some l => negb (hd 0 l =? 0) end) = sel sub i) by (unfold msub, sel; destruct sub as [[q fl]|]; [rewrite hd_skipn; reflexivity|reflexivity]).
+  assert (NXT : option_map (@tl Z) (msub sub i) = msub sub (i + 1)) by (unfold msub; destruct sub as [[q fl]|]; [cbn [option_map]; rewrite tl_skipn; do 2 f_equal; lia|reflexivity]).
+  rewrite SEL, NXT in E. revert E. unfold rd_bind, rret. destruct (sel sub i).
+  - destruct (Slice.cs_read false None s) as [[c s1]|] eqn:EC; [|discriminate]. rewrite (cs_end_of_model s c s1 EC).
+    destruct (read_cols false None r (msub sub (i + 1)) s1) as [[rest s2]|] eqn:ER; [|discriminate]. intros [= _ <-]. apply (IH (i + 1) s1 rest s2 ltac:(lia) ER).
+  - unfold csk_end. destruct (cs_skip false s) as [[u s1]|] eqn:EK; [|discriminate].
+    destruct (read_cols false None r (msub sub (i + 1)) s1) as [[rest s2]|] eqn:ER; [|discriminate]. intros [= _ <-]. apply (IH (i + 1) s1 rest s2 ltac:(lia) ER).
+Qed.
+
+Lemma ts_pos_model n sub sx t sM : 0 <= n -> Slice.ts_read false None n (msub sub 0) sx = Ok (t, sM) ->
+  exists s1 s2, sec_read sx = Ok (3, s1) /\ read_int32 false s1 = Ok (n, s2) /\ colsf_end sub (Z.to_nat n) 0 s2 = Some sM.
+Proof.
+  intros Hn. unfold Slice.ts_read, rd_bind, rfail, rret, ralloc, alloc_ok.
+  destruct (sec_read sx) as [[x s1]|] eqn:E0; [|discriminate].
+  change SBDF_TABLEEND_SECTIONID with 5. change SBDF_TABLESLICE_SECTIONID with 3.
+  destruct (x =? 5); [discriminate|]. destruct (x =? 3) eqn:E3; cbn [negb]; [|discriminate]. assert (x = 3) by lia. subst x.
+  destruct (read_int32 false s1) as [[cc s2]|] eqn:E1; [|discriminate].
+  destruct (cc <? 0); [discriminate|]. destruct (cc =? n) eqn:Ec; cbn [negb]; [|discriminate]. assert (cc = n) by lia. subst cc.
+  destruct (read_cols false None (Z.to_nat n) (msub sub 0) s2) as [[cols s3]|] eqn:ER; [|discriminate]. intros [= _ <-].
+  exists s1, s2. split; [reflexivity|]. split; [exact E1|]. apply (colsf_end_of_model sub _ 0 s2 cols s3 ltac:(lia) ER).
+Qed.
+
+(* sbdf_ts_skip as a top-level call: every block it allocated is released again whatever happens; without allocation failures
+   status and stream position are those of the L1 model's ts_skip *)
+Theorem ts_skip_source rf fo k sx m (h : heap) tmb n : Forall byte sx -> 0 <= n <= 715827882 -> cell_get h tmb 1 = Some (VInt n) ->
+  exists f0, forall f, (f0 <= f)%nat -> exists st fin,
+    callC prog_env f prog_sbdf_ts_skip [VPtr rf fo; VCell tmb 0] m k sx h = OReturn (VInt st) fin /\ prefix_of m (inb fin) /\
+    (exists j, lookup cells_var (vars fin) = Some (VHeap (h ++ nones j))) /\
+    (k < 0 -> match Slice.ts_skip false None n sx with
+              | Ok (_, sM) => st = SBDF_OK /\ lookup strm_var (vars fin) = Some (VBytes sM)
+              | Err e => st = e end).
+Proof.
+  intros Hs Hn Htm.
+  destruct (ts_skip_bs (VInt 0) [] rf fo h tmb n Hn Htm k sx m Hs) as (st & e' & sl' & sb' & k' & s' & j & m' & B & Pf & Out & TST).
+  destruct (bsE_sound _ _ _ _ B) as (f0 & F). exists f0. intros f Hf. exists st. eexists. split; [apply F; exact Hf|]. split; [exact Pf|]. split; [exists j; reflexivity|].
+  intros Hk. specialize (TST Hk).
+  pose proof (ts_st_model n (allskip n m) sx Hs ltac:(lia)) as TM.
+  unfold Slice.ts_skip, rd_bind, ralloc, alloc_ok, rret. change (msub (allskip n m) 0) with (Some (repeat 0 (Z.to_nat n))) in TM.
+  destruct (Slice.ts_read false None n (Some (repeat 0 (Z.to_nat n))) sx) as [[t sM]|e] eqn:EM.
+  - rewrite TM in TST. split; [exact TST|].
+    destruct (ts_pos_model n (allskip n m) sx t sM ltac:(lia) EM) as (s1 & s2 & A1 & A2 & A3).
+    destruct Out as [(_ & x1 & x2 & B1 & B2 & B3)|Hneg]; [|unfold SBDF_OK in TST; lia].
+    assert (x1 = s1) by congruence. subst x1. assert (x2 = s2) by congruence. subst x2. assert (s' = sM) by congruence. subst s'. reflexivity.
+  - rewrite TM in TST. exact TST.
+Qed.
